@@ -285,3 +285,13 @@ func init() {
 func init() {
 	prop("C11", "C13-R8/join")
 }
+
+func init() {
+	// sharing decided after round-2 seeds that were caught, but not under the property they were written for
+	prop("C01", "C08-R3")       // a log stream broken at a buffer wrap loses every later committed transaction (seed C01/d)
+	prop("C02", "C20-R3")       // the log is truncated at every launch: a stale GracefulShutdown record would switch Undo off (seed C02/d)
+	prop("C02", "C01-R8")       // same
+	prop("C03", "C13-R8/heap")  // what rollback restored must reach the disk (seed C03/d)
+	prop("C05", "C19-R1/txnid") // locks are owned by transaction id (seed C05/d)
+	prop("C12", "C05-R3")       // an aborted attempt of a statement leaves nothing visible (seed C12/d)
+}
